@@ -145,21 +145,27 @@ func main() {
 			}
 		}
 	}
-	if os.Getenv("VERIF_PRUNE2") != "" {
-		// variant: PruneBelowVersion deletes in batches of 2 instead of 1000 (one constant)
-		src := filepath.Join(repo, "core/util/mpt_pnodedb.go")
-		b, err := os.ReadFile(src)
-		if err != nil {
-			fatal(err)
+	if os.Getenv("VERIF_SMALL") != "" {
+		// variant "small": size thresholds of the code under test scaled down so that the bounded
+		// exploration crosses them (one constant per line below, nothing else differs)
+		for _, sc := range []struct{ file, from, to string }{
+			{"core/util/mpt_pnodedb.go", "maxPruneNodes = 1000", "maxPruneNodes = 2"}, // PruneBelowVersion deletes in batches of 2
+			{"core/util/mpt_nodedb.go", "BatchSize = 256", "BatchSize = 2"},           // batching of multi-node store operations
+		} {
+			src := filepath.Join(repo, sc.file)
+			b, err := os.ReadFile(src)
+			if err != nil {
+				fatal(err)
+			}
+			if !strings.Contains(string(b), sc.from) {
+				fatal(fmt.Errorf("constant %q not found in %s", sc.from, sc.file))
+			}
+			dst := filepath.Join(out, strings.ReplaceAll(sc.file, "/", "_")+".small.go")
+			if err := os.WriteFile(dst, []byte(strings.Replace(string(b), sc.from, sc.to, 1)), 0o644); err != nil {
+				fatal(err)
+			}
+			repl[src] = dst
 		}
-		if !strings.Contains(string(b), "maxPruneNodes = 1000") {
-			fatal(fmt.Errorf("maxPruneNodes constant not found"))
-		}
-		dst := filepath.Join(out, "core_util_mpt_pnodedb.prune2.go")
-		if err := os.WriteFile(dst, []byte(strings.Replace(string(b), "maxPruneNodes = 1000", "maxPruneNodes = 2", 1)), 0o644); err != nil {
-			fatal(err)
-		}
-		repl[src] = dst
 	}
 	// added dump files: overlay_src/<pkg path with _>/<file>.go -> /repo/<pkg>/<file>.go
 	srcRoot := filepath.Join(root, "overlay_src")
